@@ -1487,8 +1487,14 @@ class VacancyMediated(object):
         symmprobSV2 = np.array([np.sqrt(prob[i] * prob[f]) for i,f in self.om2_SP])
         D0ss = np.dot(self.Dom2, omega2 * symmprobSV2) / self.N
         D0sv = -D0ss
-        D0vv = (np.dot(self.Dom1, omega1 * symmprobSV1) -
-                np.dot(self.Dom1_om0 + self.Dom2_om0, omega0 * symmprobV0)) / self.N
+        # the omega0 reference jumps happen with the solute present (but not interacting), so they carry the
+        # probability of the solute's site; for an exchange the two directions have the solute at either end
+        probSkin = np.array([probS[s] for (s, v) in self.kineticsvWyckoff])
+        probS_om1 = np.array([probSkin[i] for i, f in self.om1_SP])
+        probS_om2 = np.array([0.5 * (probSkin[i] + probSkin[f]) for i, f in self.om2_SP])
+        om0symm = omega0 * symmprobV0
+        D0vv = (np.dot(self.Dom1, omega1 * symmprobSV1 - om0symm[self.om1_jt] * probS_om1) -
+                np.dot(self.Dom2, om0symm[self.om2_jt] * probS_om2)) / self.N
         D2vv = D0ss.copy()
 
         # 4b. Bias vectors (before correction) and rate matrices
@@ -1508,8 +1514,10 @@ class VacancyMediated(object):
             biasSvec[sv] = -np.dot(self.om2bias[sv, :], omega2escape[sv, :]) * np.sqrt(prob[starindex])
             # removed the om2 contribution--will be added back in later. Separation necessary for large_om2 case
             biasVvec[sv] = np.dot(self.om1bias[sv, :], omega1escape[sv, :]) * np.sqrt(prob[starindex]) - \
-                           np.dot(self.om1_b0[sv, :], omega0escape[svvacindex, :]) * probVsqrt[sv] - \
-                           np.dot(self.om2_b0[sv, :], omega0escape[svvacindex, :]) * probVsqrt[sv]
+                           np.dot(self.om1_b0[sv, :], omega0escape[svvacindex, :]) * probVsqrt[sv] * \
+                           np.sqrt(probSkin[starindex]) - \
+                           np.dot(self.om2_b0[sv, :], omega0escape[svvacindex, :]) * probVsqrt[sv] * \
+                           np.sqrt(probSkin[starindex])
             # - biasSvec[sv]
         biasVvec_om2 = -biasSvec
 
